@@ -323,4 +323,23 @@ def jobs(tier):
                                 "cfg": {"max_buckets": mb, "new_sample_thresh": nst, "window_size_thresh": wst,
                                         "subwindow_size_thresh": 1}},
                                expect=("after-drift", "state-drift")))
+    for mb in (1, 2):
+        out.append(Job(f"adwinacc-hist-mb{mb}", "checks.c01:body_history",
+                       {"det": "ADWINAccuracy", "N": 7 if q else 9,
+                        "cfg": {"max_buckets": mb, "new_sample_thresh": 1, "window_size_thresh": 0,
+                                "subwindow_size_thresh": 1}},
+                       expect=("after-drift", "state-drift")))
+    for burn in (0, 1, 2):
+        for sub in (1, 2):
+            n = 3 if q else 4
+            first_test = min(t for t in range(1, 50) if t > burn and t % sub == 0)
+            exp = (("state-drift",) if first_test <= n else ()) + (("after-drift",) if first_test < n else ())
+            out.append(Job(f"lfr-hist-b{burn}-s{sub}", "checks.c01:body_history",
+                           {"det": "LinearFourRates", "N": n,
+                            "cfg": {"burn_in": burn, "subsample": sub, "rates_tracked": ["ppv"]}},
+                           expect=exp))
+    out.append(Job("lfr-hist-two-rates", "checks.c01:body_history",
+                   {"det": "LinearFourRates", "N": 2 if q else 3,
+                    "cfg": {"burn_in": 0, "subsample": 1, "rates_tracked": ["tpr", "npv"]}},
+                   expect=("after-drift", "state-drift")))
     return out
